@@ -97,7 +97,7 @@ func installHook() {
 	})
 }
 
-const waitBound = 3 * time.Second
+const waitBound = 8 * time.Second
 
 // cmpLog records the decisions of the resource's equivalence (called once per bus event per live
 // subscriber, in that subscriber's goroutine).
@@ -115,6 +115,16 @@ type real struct {
 	probeCancel context.CancelFunc
 	subs        map[string]*realSub
 	subOrder    []string
+	pids        map[string]*pidInfo // PullID subscriptions, by name
+}
+
+// pidInfo: a PullID subscription is observed together with a hidden plain Pull with the same options
+// (the shadow): what the shadow receives tells how many of the bus events concern the id and whether
+// the item was removed, i.e. how many deliveries to wait for and whether the channel must close.
+type pidInfo struct {
+	id     string
+	shadow *realSub
+	ended  bool
 }
 
 // realSub is an open backpressured subscription: a collector goroutine receives continuously (so
@@ -227,6 +237,14 @@ func (r *real) unsubscribe(o Op) string {
 	case <-time.After(waitBound):
 		return "!unsub-timeout"
 	}
+	if pi := r.pids[name]; pi != nil {
+		pi.shadow.cancel()
+		select {
+		case <-pi.shadow.done:
+		case <-time.After(waitBound):
+		}
+		delete(r.pids, name)
+	}
 	delete(r.subs, name)
 	for i, n := range r.subOrder {
 		if n == name {
@@ -244,6 +262,10 @@ func (r *real) deliveries(sends int) string {
 	var parts []string
 	for _, name := range r.subOrder {
 		sb := r.subs[name]
+		if pi := r.pids[name]; pi != nil {
+			parts = append(parts, name+"="+r.pidDeliveries(sb, pi, sends))
+			continue
+		}
 		n := sends
 		if r.cmp != nil {
 			n = 0
@@ -325,6 +347,9 @@ func (r *real) close() {
 	}
 	for _, s := range r.subs {
 		s.cancel()
+	}
+	for _, p := range r.pids {
+		p.shadow.cancel()
 	}
 }
 
@@ -466,7 +491,7 @@ func readOptions(o Op) []resource.ReadOption {
 			rs = append(rs, resource.WithInclude(namedInclude(v)))
 		case "uo":
 			rs = append(rs, resource.WithUpdatesOnly(true))
-		case "name":
+		case "name", "id":
 		default:
 			panic("unknown read option " + t)
 		}
@@ -664,6 +689,107 @@ func (r *real) runRead(o Op) string {
 	})
 	if p {
 		return "panic:" + msg
+	}
+	return out
+}
+
+// collect starts the collector goroutine of a subscription.
+func collectC(sb *realSub, ch <-chan *resource.CollectionChange) {
+	go func() {
+		defer close(sb.done)
+		for e := range ch {
+			sb.push(showCEvent(e))
+		}
+	}()
+}
+
+func collectV(sb *realSub, ch <-chan *resource.ValueChange) {
+	go func() {
+		defer close(sb.done)
+		for e := range ch {
+			sb.push(showVEventFlags(e))
+		}
+	}()
+}
+
+func newRealSub(name string, cancel context.CancelFunc) *realSub {
+	return &realSub{name: name, cancel: cancel, notify: make(chan struct{}, 1), done: make(chan struct{})}
+}
+
+// concerns: does a delivered collection change (rendered) concern the id, and does it end a PullID stream
+func concerns(ev, id string) (match, ends bool) {
+	f := strings.Split(ev, "|")
+	if len(f) < 5 || f[0] != id {
+		return false, false
+	}
+	return true, f[2] == "REMOVE" || f[4] == "nil"
+}
+
+// subscribeID opens a backpressured PullID (and its shadow Pull) and returns the seed.
+func (r *real) subscribeID(o Op) string {
+	name, _ := o.opt("name")
+	raw, _ := o.opt("id")
+	id := raw // PullID applies the id interceptor itself; the changes carry the intercepted id
+	if r.cfg.Icpt != "" {
+		id = namedIcpt(r.cfg.Icpt)(raw)
+	}
+	rs := append(readOptions(o), resource.WithBackpressure(true))
+	nSeed := 0
+	if !o.has("uo") {
+		nSeed = len(r.coll.List())
+	}
+	ctxS, cancelS := context.WithCancel(context.Background())
+	shadow := newRealSub(name+"~shadow", cancelS)
+	collectC(shadow, r.coll.Pull(ctxS, rs...))
+	ctx, cancel := context.WithCancel(context.Background())
+	sb := newRealSub(name, cancel)
+	collectV(sb, r.coll.PullID(ctx, raw, rs...))
+	pi := &pidInfo{id: id, shadow: shadow}
+	n := 0
+	for _, ev := range shadow.take(nSeed) {
+		if m, ends := concerns(ev, id); m && !ends {
+			n++
+		}
+	}
+	if r.pids == nil {
+		r.pids = map[string]*pidInfo{}
+	}
+	r.pids[name] = pi
+	r.subs[name] = sb
+	r.subOrder = append(r.subOrder, name)
+	return "seed=" + showList(sb.take(n))
+}
+
+func (r *real) pidDeliveries(sb *realSub, pi *pidInfo, sends int) string {
+	if pi.ended {
+		return "[]$"
+	}
+	n := 0
+	for _, ev := range pi.shadow.take(sends) {
+		if pi.ended {
+			break
+		}
+		m, ends := concerns(ev, pi.id)
+		switch {
+		case m && ends:
+			pi.ended = true
+		case m:
+			n++
+		}
+	}
+	out := showList(sb.take(n))
+	if pi.ended {
+		select {
+		case <-sb.done: // the PullID channel was closed
+		case <-time.After(takeBound):
+			out += "!not-closed"
+		}
+		pi.shadow.cancel()
+		select {
+		case <-pi.shadow.done:
+		case <-time.After(waitBound):
+		}
+		out += "$"
 	}
 	return out
 }
